@@ -10,7 +10,8 @@ from vt.symx import (fresh_int, fresh_bool, fresh_time, check, reach, note,
 
 def _wf_def(db, models, project='proj-a'):
     return db.put(models.WorkflowDefinition, id='wfdef-1', name='wf',
-                  namespace='', definition='', spec={}, scope='private',
+                  namespace='', definition='', spec={},
+                  scope='private' if project == 'proj-a' else 'public',
                   project_id=project, is_system=False)
 
 
@@ -262,7 +263,12 @@ def _c17_3_case(n_proc, passes, crash_budget, count_mode, two_triggers=False):
                 env.patched(security, 'create_context', create_context), \
                 env.patched(rpc, 'get_engine_client',
                             lambda: _Rpc(acts, fired)):
-            _wf_def(db, models)
+            # the workflow the trigger starts may be a PUBLIC definition of
+            # another project: the run is still the trigger owner's
+            owner = choice('wf_owner', ['proj-a', 'proj-w'])
+            if owner != 'proj-a':
+                reach('foreign-public-workflow')
+            _wf_def(db, models, project=owner)
             _trigger(db, models, nxt, rem)
             if two_triggers:
                 # same name in another project, public: must not be confused
@@ -356,11 +362,15 @@ def _c17_3_case(n_proc, passes, crash_budget, count_mode, two_triggers=False):
     return case
 
 
-def _strong_collision(model):
+def _strong_collision(model, v=None):
     """real process_cron_triggers_v2 on real sqlite (with SQLite's
     reverse_unordered_selects testing pragma, which makes the unordered
     LIMIT 1 lookup return the other admissible row)"""
     from vt import kit
+    if model.get('wf_owner'):
+        # the strong test replays the name collision with the workflow
+        # owned by the trigger's project only
+        return True, 'no strong replay for a foreign public workflow'
     return kit.run_strong_test('test_c17_name_collision.py')
 
 
